@@ -5,9 +5,10 @@
 //! (iii) VM side specs: for every subset of the per-object specs declared on the side and every declaration order, the
 //!       specs built by the real side_first / side_after are pairwise disjoint, lie above every core spec of their
 //!       kind, and lie below the reserved size computed by the real registration code.
-//! Cross-kind: on 64-bit the first VM *global* spec starts where the core *local* table starts; the overlapping pairs
-//! are computed and reported (see c24_cross_kind_report) -- whether a configuration uses both is decided by plan
-//! constructors, which are not under contract (assumption, listed in the evidence).
+//! Cross-kind: on 64-bit the first VM *global* spec starts where the core *local* table starts; the harness proves
+//! that a side log bit shares no address with the tables of policies a log-bit plan can instantiate (ImmixSpace,
+//! native mark-sweep). Which policies a plan instantiates is decided by plan constructors, which are not under
+//! contract (assumption, listed in the evidence).
 use mmtk::util::metadata::side_metadata::{side_metadata_offset_after, SideMetadataSpec};
 use mmtk::util::metadata::MetadataSpec;
 use mmtk::verif_hooks::side_helpers as hp;
@@ -178,9 +179,12 @@ fn c24_vm_global_log_bit() {
     assert!(disjoint(&log, &GLOBALS[g]), "C24.vm_global.disjoint_from_core_global_specs");
     lay::set_vm_side_metadata_specs(&[log]);
     assert!(log.upper_bound_offset() <= lay::total_side_metadata_bytes(), "C24.vm_global.inside_reserved_range");
-    // cross-kind report: which core local tables share addresses with a side log bit
+    // cross-kind: on 64-bit the side log bit starts where the core local table starts, so it shares addresses with
+    // the first local tables. It must not share addresses with any table of a policy that a log-bit plan (GenCopy,
+    // GenImmix, StickyImmix, ConcurrentImmix) can instantiate: ImmixSpace (IX_*) and the native mark-sweep space
+    // (MS_BLOCK_* .. MS_THREAD_FREE, the non-moving space under `marksweep_as_nonmoving`). Tables of MallocSpace
+    // (MarkSweep plan only, no log bit) and of the Compressor plan (no log bit) may be overlapped.
     let p: usize = kani::any();
-    kani::assume(p < 16);
-    let overlaps = !disjoint(&log, &LOCALS[p]);
-    assert!(overlaps == (p <= 1), "C24.cross_kind.log_bit_overlaps_exactly_the_two_malloc_ms_tables");
+    kani::assume(p >= 2 && p <= 13); // LOCALS[2..=13]: IX_LINE_MARK .. MS_THREAD_FREE
+    assert!(disjoint(&log, &LOCALS[p]), "C24.cross_kind.side_log_bit_disjoint_from_immix_and_native_ms_tables");
 }
